@@ -37,7 +37,7 @@ import (
 
 type Iface interface{ Do() }
 type Cfg struct {
-	A int `config:"a"`
+	A int `config:"a" validate:"max=1000"`
 	B int `config:"b"`
 	C int `config:"c"`
 }
@@ -47,6 +47,15 @@ type Impl struct {
 }
 
 func (*Impl) Do() {}
+
+// named func types with the signatures of the two factory forms
+type NamedF0 func() Iface
+type NamedF1 func() (Iface, error)
+
+var (
+	namedF0T = reflect.TypeOf(NamedF0(nil))
+	namedF1T = reflect.TypeOf(NamedF1(nil))
+)
 
 type stageErr struct {
 	stage string
@@ -64,6 +73,7 @@ var (
 )
 
 type rec struct {
+	named                     bool // the hand-out-able function (newPlugin / returned factory) has a named func type
 	evs                       []string
 	nDef, nFill, nCtor, nProd int
 	ptrs                      []*Cfg // kept alive: identities stay distinct
@@ -131,6 +141,12 @@ func (r *rec) constructor(ret, cfg string, resT reflect.Type) interface{} {
 			fo = append(fo, errT)
 		}
 		facT = reflect.FuncOf(nil, fo, false)
+		if r.named {
+			facT = namedF0T
+			if r.perr {
+				facT = namedF1T
+			}
+		}
 		out = []reflect.Type{facT}
 	}
 	if r.cerr {
@@ -196,7 +212,14 @@ func (r *rec) constructor(ret, cfg string, resT reflect.Type) interface{} {
 		}
 		return res
 	}
-	return reflect.MakeFunc(reflect.FuncOf(in, out, false), body).Interface()
+	ctorT := reflect.FuncOf(in, out, false)
+	if r.named && ret == "P" {
+		ctorT = namedF0T
+		if r.cerr {
+			ctorT = namedF1T
+		}
+	}
+	return reflect.MakeFunc(ctorT, body).Interface()
 }
 
 func (r *rec) defaultFn(cfg, def string) interface{} {
@@ -212,6 +235,9 @@ func (r *rec) defaultFn(cfg, def string) interface{} {
 		r.nDef++
 		r.ev(fmt.Sprintf("D%d", n))
 		v := Cfg{A: 100 + n, B: 200 + n}
+		if def == "W" {
+			v.A = 5000 + n // a default that violates its own validate tag
+		}
 		if t == ptrT {
 			if def == "Z" {
 				return []reflect.Value{reflect.Zero(ptrT)}
@@ -292,15 +318,15 @@ var (
 	hookSeq    int
 )
 
-// hook <cfg S|P> <def -|V> <req N|F1> <userB> <k>: the way real configs reach the registry:
-// core/register (default registry) + pluginconfig hooks + config.Decode of {type: name, b: userB}
-// into a field of plugin type / of factory type; the fill is the real decoder.
+// hook <cfg S|P> <def -|V|W> <req N|F1> <userB|-> <k> [<userA|->]: the way real configs reach the
+// registry: core/register (default registry) + pluginconfig hooks + config.Decode of
+// {type: name[, b: userB][, a: userA]} into a field of plugin type / of factory type; the fill is
+// the real decoder + validator (field a: max=1000; default W returns a = 5000+n).
 func runHook(f []string) string {
-	if len(f) != 6 {
+	if len(f) != 6 && len(f) != 7 {
 		return "unknown-case"
 	}
 	cfg, def, req := f[1], f[2], f[3]
-	userB, _ := strconv.Atoi(f[4])
 	k, _ := strconv.Atoi(f[5])
 	if !hooksAdded {
 		pluginconfig.AddHooks()
@@ -316,7 +342,16 @@ func runHook(f []string) string {
 	register.RegisterPtr((*Iface)(nil), name, r.constructor("P", cfg, implT), args...)
 	// a fresh map per Decode: pluginconfig.parseConf deletes the "type" key from the map it is given
 	mkdata := func() map[string]interface{} {
-		return map[string]interface{}{"x": map[string]interface{}{"type": name, "b": userB}}
+		sec := map[string]interface{}{"type": name}
+		if f[4] != "-" {
+			n, _ := strconv.Atoi(f[4])
+			sec["b"] = n
+		}
+		if len(f) == 7 && f[6] != "-" {
+			n, _ := strconv.Atoi(f[6])
+			sec["a"] = n
+		}
+		return map[string]interface{}{"x": sec}
 	}
 	var sb strings.Builder
 	if req == "N" {
@@ -328,7 +363,7 @@ func runHook(f []string) string {
 				}
 				err := config.Decode(mkdata(), &h)
 				if err != nil {
-					return "err:decode:" + strings.ReplaceAll(err.Error(), "\n", " ")
+					return "err:config"
 				}
 				return describe(h.X, nil)
 			})
@@ -341,7 +376,7 @@ func runHook(f []string) string {
 	}
 	cout := guarded(func() string {
 		if err := config.Decode(mkdata(), &h); err != nil {
-			return "err:decode:" + strings.ReplaceAll(err.Error(), "\n", " ")
+			return "err:config"
 		}
 		return "ok"
 	})
@@ -350,7 +385,13 @@ func runHook(f []string) string {
 		return sb.String()
 	}
 	for i := 0; i < k; i++ {
-		out := guarded(func() string { return describe(h.X()) })
+		out := guarded(func() string {
+			p, err := h.X()
+			if err != nil {
+				return "err:config"
+			}
+			return describe(p, nil)
+		})
 		sb.WriteString(" | " + r.take() + " => " + out)
 	}
 	return sb.String()
@@ -457,6 +498,7 @@ func runNest(f []string) string {
 	if rt == "M" {
 		resT = implT
 	}
+	r.named = rt == "J"
 	reg := plugin.NewRegistry()
 	args := []interface{}{}
 	if def != "-" {
@@ -508,18 +550,15 @@ func runNest(f []string) string {
 		}
 		return sb.String()
 	}
-	var ft reflect.Type
-	if req == "F1" {
-		ft = reflect.TypeOf((func() (Iface, error))(nil))
-	} else {
-		ft = reflect.TypeOf((func() Iface)(nil))
-	}
 	var fac interface{}
 	cout := guarded(func() string {
 		var err error
-		fac, err = reg.NewFactory(ft, "x", fillRe)
+		fac, err = reg.NewFactory(factoryType(req), "x", fillRe)
 		if err != nil {
 			return "err:" + classify(err)
+		}
+		if !hasRequestedType(req, fac) {
+			return fmt.Sprintf("wrongtype:%T", fac)
 		}
 		return "ok"
 	})
@@ -528,12 +567,7 @@ func runNest(f []string) string {
 		return sb.String()
 	}
 	for i := 0; i < k; i++ {
-		out := guarded(func() string {
-			if req == "F1" {
-				return describe(fac.(func() (Iface, error))())
-			}
-			return describe(fac.(func() Iface)(), nil)
-		})
+		out := guarded(func() string { return callFactory(req, fac) })
 		sb.WriteString(" | " + r.take() + " => " + out)
 	}
 	return sb.String()
@@ -561,6 +595,7 @@ func runCase(c string) string {
 	if rt == "M" {
 		resT = implT
 	}
+	r.named = rt == "J"
 	reg := plugin.NewRegistry()
 	args := []interface{}{}
 	if def != "-" {
@@ -592,18 +627,15 @@ func runCase(c string) string {
 		}
 		return sb.String()
 	}
-	var ft reflect.Type
-	if req == "F1" {
-		ft = reflect.TypeOf((func() (Iface, error))(nil))
-	} else {
-		ft = reflect.TypeOf((func() Iface)(nil))
-	}
 	var fac interface{}
 	cout := guarded(func() string {
 		var err error
-		fac, err = reg.NewFactory(ft, "x", fills...)
+		fac, err = reg.NewFactory(factoryType(req), "x", fills...)
 		if err != nil {
 			return "err:" + classify(err)
+		}
+		if !hasRequestedType(req, fac) {
+			return fmt.Sprintf("wrongtype:%T", fac)
 		}
 		return "ok"
 	})
@@ -612,15 +644,54 @@ func runCase(c string) string {
 		return sb.String()
 	}
 	for i := 0; i < k; i++ {
-		out := guarded(func() string {
-			if req == "F1" {
-				return describe(fac.(func() (Iface, error))())
-			}
-			return describe(fac.(func() Iface)(), nil)
-		})
+		out := guarded(func() string { return callFactory(req, fac) })
 		sb.WriteString(" | " + r.take() + " => " + out)
 	}
 	return sb.String()
+}
+
+// requested factory types: F0 func() Iface, F1 func() (Iface, error), G0 / G1 the named func
+// types NamedF0 / NamedF1 with the same signatures
+func factoryType(req string) reflect.Type {
+	switch req {
+	case "F1":
+		return reflect.TypeOf((func() (Iface, error))(nil))
+	case "G0":
+		return namedF0T
+	case "G1":
+		return namedF1T
+	}
+	return reflect.TypeOf((func() Iface)(nil))
+}
+
+// the value NewFactory returned must have exactly the requested type (what a type assertion by
+// the caller, or the config decoder assigning it to a field of that type, relies on)
+func hasRequestedType(req string, fac interface{}) bool {
+	switch req {
+	case "F1":
+		_, ok := fac.(func() (Iface, error))
+		return ok
+	case "G0":
+		_, ok := fac.(NamedF0)
+		return ok
+	case "G1":
+		_, ok := fac.(NamedF1)
+		return ok
+	}
+	_, ok := fac.(func() Iface)
+	return ok
+}
+
+func callFactory(req string, fac interface{}) string {
+	switch req {
+	case "F1":
+		return describe(fac.(func() (Iface, error))())
+	case "G0":
+		return describe(fac.(NamedF0)(), nil)
+	case "G1":
+		return describe(fac.(NamedF1)())
+	}
+	return describe(fac.(func() Iface)(), nil)
 }
 
 func setStr(xs []int) string {
@@ -661,14 +732,18 @@ func gen(r *vh.Rand, tier string) []string {
 						defs = append(defs, "Z")
 					}
 					for _, def := range defs {
-						for _, rt := range []string{"I", "M"} {
+						rts := []string{"I", "M"}
+						if ret == "F" || cfg == "N" {
+							rts = append(rts, "J") // the hand-out-able function has a named func type
+						}
+						for _, rt := range rts {
 							head := fmt.Sprintf("c18 %s %s %s %s %s %s", ret, cfg, b(cerr), b(perr), def, rt)
 							if cfg == "N" && def != "-" {
 								// registration is refused
 								out = append(out, head+" N 0 1 - - -", head+" F1 1 2 - - -")
 								continue
 							}
-							for _, req := range []string{"N", "F0", "F1"} {
+							for _, req := range []string{"N", "F0", "F1", "G0", "G1"} {
 								for _, hf := range []bool{false, true} {
 									ks := []int{0, 1, 2, 3, 4, 5}
 									if req == "N" {
@@ -721,10 +796,13 @@ func gen(r *vh.Rand, tier string) []string {
 		}
 	}
 	for _, cfg := range []string{"S", "P"} {
-		for _, def := range []string{"-", "V"} {
+		for _, def := range []string{"-", "V", "W"} {
 			for _, req := range []string{"N", "F1"} {
 				for _, k := range []int{1, 2, 4} {
-					out = append(out, fmt.Sprintf("hook %s %s %s %d %d", cfg, def, req, 7+k, k))
+					// the section holds: type only / b / a (valid) / a (invalid) / a and b
+					for _, ab := range [][2]string{{"-", "-"}, {"-", fmt.Sprint(7 + k)}, {"7", "-"}, {"2000", "-"}, {"9", fmt.Sprint(7 + k)}} {
+						out = append(out, fmt.Sprintf("hook %s %s %s %s %d %s", cfg, def, req, ab[1], k, ab[0]))
+					}
 				}
 			}
 		}
